@@ -28,6 +28,9 @@ mod filterer;
 mod socket;
 mod state;
 
+#[cfg(watchexec_verif)]
+pub mod verif;
+
 async fn run_watchexec(args: Args, state: state::State) -> Result<()> {
 	info!(version=%env!("CARGO_PKG_VERSION"), "constructing Watchexec from CLI");
 
